@@ -434,11 +434,31 @@ def run(F, rep, tier):
         if cc is not None and wl is not None:
             a = [w for w, _ in C.io_seq(cc["body"], "write")]
             b = [w for w, _ in C.io_seq(wl["body"], "write")]
-            deleg = any(m[2] == "write_le" and "self" in render(m[1]) for m in find(cc["body"], "mcall"))
+            deleg = any(m[2] == "write_le" and render(m[1]).replace("&", "").replace("*", "").strip("() ") == "self" for m in find(cc["body"], "mcall"))
             if a and b and not deleg:
                 n5 += 1
                 rep.check(a == b, "C06-R5", "%s:encoders-agree" % t, "%s: CompileConst::compile_const writes %s but ConstElem::write_le writes %s (the decoder from_le reads one format)" % (t, a, b),
                           sample={"type": t, "compile_const": a, "write_le": b})
+                # same widths are not enough: the two encoders must write the same FIELD at each position (rows before cols ...)
+                def norm_arg(x, body):
+                    lets = {st[1][1]: render(st[2]) for st in find(body, "let") if len(st) == 4 and st[2] is not None and st[1][0] == "pident"}
+                    for _ in range(3):
+                        x = re.sub(r"\s+as\s+\w+", "", x)
+                        x = re.sub(r"[()&*\s]", "", x).replace("self.", "")
+                        if x in lets:
+                            x = lets[x]
+                        else:
+                            break
+                    x = {"nrows": "rows", "ncols": "cols"}.get(x, x)
+                    return x if re.match(r"^[A-Za-z_][\w.]*$", x) else None
+                fa = [(w, norm_arg(x, cc["body"])) for w, x in C.io_seq(cc["body"], "write") if w in C.W]
+                fb = [(w, norm_arg(x, wl["body"])) for w, x in C.io_seq(wl["body"], "write") if w in C.W]
+                if len(fa) == len(fb):
+                    diffs = [(i, x[1], y[1]) for i, (x, y) in enumerate(zip(fa, fb)) if x[1] and y[1] and x[1] != y[1]]
+                    n5 += 1
+                    rep.check(not diffs, "C06-R5", "%s:encoders-agree-on-fields" % t,
+                              "%s: the two encoders write different fields at the same position: %s (compile_const vs write_le); from_le decodes one order, so a constant emitted through the other comes back with those fields exchanged" % (
+                                  t, ["#%d: %s vs %s" % d for d in diffs][:4]), sample={"type": t, "fields": [x[1] for x in fa]})
         if wl is not None and fl is not None:
             wseq = [w for w, _ in C.io_seq(wl["body"], "write") if w in C.W]
             rseq = [w for w, _ in C.io_seq(fl["body"], "read") if w in C.W]
